@@ -9,6 +9,10 @@ CLAIMED = {
    "Lean 4 theorems about the model of secureLoginResponse/sendHandshake: response_spec (for EVERY digest the answer is the 8 low decimal digits of the LE32 masked to 30 bits), response_length/all_digits, pr_fits_int32, salt_eq (regenerated salt = published salt, by decide), handshake_lines, aux_entry, no_callback_fails, handshake_noninterference. The model is tied to /repo on every run by correspondence (real secureLoginResponse and real slave Sessions against a scripted challenging master vs the compiled Lean driver) and by the regenerated salt table; an independent Go oracle of the Winlink algorithm judges the real code.",
    "MD5 is modelled executably and differential-checked against crypto/md5, not proved against RFC 1321; Go fmt %08d modelled (Fmt.dec0) and differential-checked; readHandshake's ;PQ capture is covered by correspondence only; trusted: Lean kernel, extractor, harness, driver I/O shell",
    "Lean 4 proof over hand-written model + differential correspondence + regenerated salt table", "5.16"),
+ "C20": ("proof",
+   "Lean 4 theorems over EXACT rational arithmetic (input = ±num/den, which every float64 is): value_within (|printed − |dec|| ≤ ½·10⁻⁴ minute), minutes_lt_60, degrees_le (≤ 90/180, equal only with zero minutes), lat_shape/lon_shape (DD-MM.MMMMH / DDD-MM.MMMMH with digit fields), printed_value, hemisphere (dec ≠ 0), hemisphere_zero_blank (proved negative = the known finding), course_format (0..360 → three digits + T/M, 360 ↦ 000), course_out_of_range, optional_iff_set. Tie: correspondence of the real decToMinDec/NewCourse/PosReport.Message against the Lean driver on a dense grid, the 20 neighbouring doubles of every whole degree/minute, the carry region and rounding-resolution grid; an independent exact-rational oracle judges the real output.",
+   "partial w.r.t. IEEE-754: the float multiply |dec|*600000 and fmt %07.4f are outside Lean's kernel (Float is opaque); the model is exact arithmetic and inputs within 1e-6 of a rounding tie are judged by the oracle only (counted in evidence); time.Format and %f of SPEED are stdlib parameters; trusted: Lean kernel, harness, driver shell",
+   "Lean 4 proof over exact-rational model + differential correspondence on dense float grid", "5.20"),
 }
 PENDING_REASON = "check not yet built in this session (construction order DESIGN.md §7); not claimed until its model, theorems and correspondence run exist"
 
